@@ -3,6 +3,7 @@ import Asn1Model.Sexp
 import Asn1Model.Comments
 import Asn1Model.Schema
 import Asn1Model.Uper
+import Asn1Model.Typing
 /-
   Line protocol: one request per line `op<TAB>arg...`, args are S-expressions.
   One answer line per request.  Everything printed is canonical.
@@ -197,6 +198,27 @@ def opDec (args : List Sx) : String :=
       | _ => "bad-codec"
     | none, _ => "bad-type"
     | _, none => "bad-hex"
+  | _ => "bad-args"
+
+
+def b2s (b : Bool) : String := if b then "T" else "F"
+
+/-- `rt <codec> <ty> <val>`: evaluates the hypotheses and the conclusion of the round-trip theorem -/
+def opRt (args : List Sx) : String :=
+  match args with
+  | [.atom "uper", t, v] =>
+    match sxTy? t, sxVal? v with
+    | some ty, some val =>
+      let hyps := s!"wf={b2s ty.wf} defaults={b2s ty.defaultsOk} hasType={b2s (hasType ty val)} fragFree={b2s (Uper.fragFree ty val)}"
+      match Uper.enc ty val with
+      | .error e => hyps ++ " enc=err:" ++ uperErr e
+      | .ok bits =>
+        let rest : Bits := [true, false, true]
+        match Uper.dec ty (bits.length + rest.length + 2) (bits ++ rest) with
+        | .error e => hyps ++ " enc=ok dec=err:" ++ uperErr e
+        | .ok (w, r) =>
+          hyps ++ s!" enc=ok dec=ok value={b2s (w == canon ty val)} rest={b2s (r == rest)}"
+    | _, _ => "bad-args"
   | _ => "bad-args"
 
 end Asn1.Proto
